@@ -399,6 +399,68 @@ def gxx_eval(exprs, per_unit=200):
     return res
 
 
+RUNTIME_PRELUDE = r"""
+#include <cstdio>
+#include <setjmp.h>
+static sigjmp_buf J;
+extern "C" {
+  void __ubsan_handle_add_overflow_abort(void *, void *, void *) { siglongjmp(J, 1); }
+  void __ubsan_handle_sub_overflow_abort(void *, void *, void *) { siglongjmp(J, 1); }
+  void __ubsan_handle_mul_overflow_abort(void *, void *, void *) { siglongjmp(J, 1); }
+  void __ubsan_handle_negate_overflow_abort(void *, void *) { siglongjmp(J, 1); }
+  void __ubsan_handle_divrem_overflow_abort(void *, void *, void *) { siglongjmp(J, 1); }
+  void __ubsan_handle_shift_out_of_bounds_abort(void *, void *, void *) { siglongjmp(J, 1); }
+}
+template <class T> static T rd(volatile T &x) { return x; }
+"""
+
+
+def gxx_runtime_ub(exprs):
+    """Second opinion for expressions that the specification calls undefined but g++ accepts as constants (g++ folds an
+    overflowing subexpression with a warning when its value only feeds a comparison or a condition).  Every literal is
+    replaced by a read of a volatile object of the literal's own type, the expression is evaluated at run time under
+    -fsanitize=undefined,float-divide-by-zero and the arithmetic checks longjmp out: True = undefined behaviour was
+    executed (only operands that C++ evaluates are executed)."""
+    if not exprs:
+        return []
+    with tempfile.TemporaryDirectory(prefix="c14rt") as wd:
+        lines = RUNTIME_PRELUDE.splitlines()
+        for i, e in enumerate(exprs):
+            out = []
+            k = 0
+            pos = 0
+            text = e.strip()
+            while pos < len(text):
+                m = TOKEN.match(text, pos)
+                if not m:
+                    raise C.CheckError("cannot tokenize for the run-time check: " + e)
+                if m.group(1):
+                    lines.append("static volatile auto L%d_%d = %s;" % (i, k, m.group(1)))
+                    out.append("rd(L%d_%d)" % (i, k))
+                    k += 1
+                else:
+                    out.append(m.group(2))
+                pos = m.end()
+            lines.append("static void f%d() { auto v = (%s); (void) v; }" % (i, " ".join(out)))
+        lines.append("int main() {")
+        for i in range(len(exprs)):
+            lines.append('  if (sigsetjmp(J, 0) == 0) { f%d(); printf("%d OK\\n"); } else { printf("%d UB\\n"); }' % (i, i, i))
+        lines.append("  return 0; }")
+        src = os.path.join(wd, "rt.cpp")
+        exe = os.path.join(wd, "rt")
+        open(src, "w").write("\n".join(lines) + "\n")
+        rc, out, err = C.sh(["g++", "-std=c++17", "-w", "-O0", "-fsanitize=undefined", "-fsanitize=float-divide-by-zero",
+                             "-fno-sanitize-recover=all", src, "-o", exe], timeout=600)
+        if rc != 0:
+            raise C.CheckError("run-time definedness check does not compile:\n" + err[-2000:])
+        rc, out, err = C.sh([exe], timeout=120)
+        res = [None] * len(exprs)
+        for l in out.splitlines():
+            p = l.split()
+            res[int(p[0])] = (p[1] == "UB")
+        return res
+
+
 # ---------------------------------------------------------------------------------- tie
 def canon_impl(line):
     """undefined behaviour inside the library as the sanitizers / the kernel report it -> R UB"""
@@ -456,17 +518,30 @@ def candidates(t):
     return res
 
 
+def render_bare(t):
+    return render_min(t, 0, safe=False)
+
+
 def shrink_tree(D, model, text, keep_clean):
     """greedy: among all one-step simplifications that still fail the specification (and, if keep_clean, still satisfy
-    the known-finding guards) take the smallest; repeat"""
+    the known-finding guards) take the smallest; repeat.  Candidates are rendered fully parenthesised unless the
+    failure only shows without parentheses (a defect of the expression parser rather than of the folder)."""
     t = parse(text)
     if t is None:
         return text
+    rend = None
+    for r in (render, render_bare):
+        i0, r0, s0 = D.eval([r(t)], parallel=False)
+        if D.fails_spec(i0[0], s0[0]):
+            rend = r
+            break
+    if rend is None:
+        return text
     for _ in range(40):
-        cs = sorted(set(candidates(t)), key=lambda c: (size(c), len(render(c))))[:400]
+        cs = sorted(set(candidates(t)), key=lambda c: (size(c), len(rend(c))))[:400]
         if not cs:
             break
-        texts = [render(c) for c in cs]
+        texts = [rend(c) for c in cs]
         I, R, S = D.eval(texts, parallel=len(texts) > 40)
         tags = guard_tags(model, texts) if keep_clean else [set()] * len(texts)
         nxt = None
@@ -478,7 +553,7 @@ def shrink_tree(D, model, text, keep_clean):
         if nxt is None:
             break
         t = nxt
-    return render(t)
+    return rend(t)
 
 
 # known-finding signatures: predicates over the shrunk failing case (structural) confirmed by the Coq guard
@@ -508,7 +583,17 @@ def sig_ternary_type(case):
     return bool(t and t[0] == "tern" and all(_is_lit(x) for x in t[1:4]) and "ternary_type" in _tags_of(case))
 
 
-SIGNATURES = {"tilde_bool": sig_tilde_bool, "bitop_bool": sig_bitop_bool, "ternary_type": sig_ternary_type}
+def sig_parse_nested_ternary(case):
+    """a conditional directly inside another one, no parentheses, literal operands otherwise"""
+    t = parse(case)
+    if not (t and t[0] == "tern" and case.strip() == render_bare(t)):
+        return False
+    inner = [x for x in t[1:4] if x[0] == "tern"]
+    return bool(inner) and all(_is_lit(x) or (x[0] == "tern" and all(_is_lit(y) for y in x[1:4])) for x in t[1:4])
+
+
+SIGNATURES = {"tilde_bool": sig_tilde_bool, "bitop_bool": sig_bitop_bool, "ternary_type": sig_ternary_type,
+              "parse_nested_ternary": sig_parse_nested_ternary}
 
 
 def load_known(prop):
@@ -623,10 +708,22 @@ def run(run, tier, seed, replay_case=None):
     # ---- specification vs the host compiler
     gx = gxx_eval(cases)
     spec_bad = []
+    disputed = []
     for c, s, g in zip(cases, S, gx):
         want = None if s == "S UNDEF" else s[2:]
         if want != g:
-            spec_bad.append((c, s, g))
+            if want is None:
+                disputed.append((c, s, g))      # undefined for the specification, a constant for g++
+            else:
+                spec_bad.append((c, s, g))
+    lenient = 0
+    if disputed:
+        ub = gxx_runtime_ub([d[0] for d in disputed])
+        for d, u in zip(disputed, ub):
+            if u:
+                lenient += 1                    # executing it is undefined: g++ folded through an overflow
+            else:
+                spec_bad.append(d)
     if spec_bad and not run.violations:
         c, s, g = spec_bad[0]
         content = ("the C++ specification coq/C14/Spec.v disagrees with g++ -std=c++17 on %d of %d expressions\n"
@@ -639,6 +736,7 @@ def run(run, tier, seed, replay_case=None):
     cov["correspondence_disagreements"] = len(corr)
     cov["spec_disagreements"] = len(prop_fails)
     cov["spec_vs_gxx_disagreements"] = len(spec_bad)
+    cov["gxx_accepts_but_runtime_ubsan_reports"] = lenient
     cov["spec_defined"] = sum(1 for s in S if s != "S UNDEF")
     cov["gxx_constant_expressions"] = sum(1 for g in gx if g is not None)
     cov["cases_with_known_finding_constructs"] = sum(1 for t in tags if t)
